@@ -33,7 +33,7 @@ THEOREMS = ["C11_comment_lines_words", "C11_comment_render", "C11_comment_words"
             "C11_comment_words_unsafe_refuted", "C11_comment_idempotent_refuted",
             "C09_linebreak_terminates", "C09_linebreak_measure",
             "C11_tokens_preserved", "C11_tokens_preserved_list", "C11_comments_preserved", "C11_build_string",
-            "C11_linebreak_example", "C11_example"]
+            "C11_linebreak_example", "C11_k1_k2_repaired", "C11_example"]
 
 
 def write_corpus(ctx):
@@ -45,6 +45,8 @@ def write_corpus(ctx):
     paths = list(corpus.cairo_sources())
     paths += sorted(glob.glob("/repo/crates/cairo-lang-formatter/test_data/cairo_files/*.cairo"))
     paths += sorted(glob.glob("/repo/crates/cairo-lang-formatter/test_data/expected_results/*.cairo"))
+    # inputs of the fixed (K1, K2) and known (K3-K8) findings, kept as regressions
+    paths += sorted(glob.glob(os.path.join(vlib.ROOT, "corpus/C11/*.cairo")))
     n_files = len(paths)
     seen, n = set(), 0
     for _f, _key, t in corpus.test_data_cairo_snippets():
@@ -112,6 +114,14 @@ def run(ctx):
         ctx.violation(what, f, found_input=True, fingerprint=f.get("sig") or None)
         if len(ctx.violations) > before:
             n_viol += 1
+    # the oracle's own sensitivity: tampered formatter answers (dropped `;`, swapped arguments, lost comment
+    # word, `//` -> `///`, trailing space, `(a,)` -> `(a)`) must all be reported as unrecognised failures
+    st = summary.get("oracle_selftest") or {}
+    for u in (st.get("undetected") or [])[:3]:
+        ctx.violation("impl-level oracle does not notice a tampered formatter answer (%s): the check machinery "
+                      "is broken" % u.get("tamper"), u, found_input=False)
+    if ok_build and summary and not any(v.get("applied") for v in (st.get("by_tamper") or {}).values()):
+        ctx.violation("oracle self-test did not apply any tampering", {"selftest": st}, found_input=False)
     hook_mismatch = (summary.get("cases") or {}).get("lb_hook_vs_get_formatted_file_mismatch") or []
     for m in hook_mismatch[:3]:
         ctx.violation("get_formatted_file differs from format_node + LineBuilder::build (hook replica of "
